@@ -201,6 +201,29 @@ func runBoot(sc M) {
 				fail("Unmarshal: %v", err)
 				return nil
 			}
+			// the two-step spelling (header, then path list from the same buffer) and the path list alone through a plain io.Reader
+			// decode to the same option
+			{
+				buf := bytes.NewBuffer(append([]byte{}, b.Bytes()...))
+				lo2, err := device.ParseEFILoadOption(buf)
+				if err != nil {
+					fail("ParseEFILoadOption: %v", err)
+					return nil
+				}
+				rest := append([]byte{}, buf.Bytes()...)
+				fp, err := device.ParseDevicePath(buf)
+				fp2, err2 := device.ParseDevicePath(onlyReader{bytes.NewReader(rest)})
+				if err != nil || err2 != nil || lo2.Description != lo.Description || lo2.Attributes != lo.Attributes || lo2.FilePathListLength != lo.FilePathListLength ||
+					len(fp) != len(lo.FilePath) || len(fp2) != len(lo.FilePath) {
+					fail("ParseEFILoadOption + ParseDevicePath disagree with Unmarshal (%v, %v, %d / %d / %d nodes)", err, err2, len(fp), len(fp2), len(lo.FilePath))
+				} else {
+					for k := range fp {
+						if fmt.Sprintf("%T%+v", fp[k], fp[k]) != fmt.Sprintf("%T%+v", lo.FilePath[k], lo.FilePath[k]) || fmt.Sprintf("%T%+v", fp2[k], fp2[k]) != fmt.Sprintf("%T%+v", lo.FilePath[k], lo.FilePath[k]) {
+							fail("node %d: ParseDevicePath gives %+v / %+v, Unmarshal %+v", k, fp[k], fp2[k], lo.FilePath[k])
+						}
+					}
+				}
+			}
 			if uint32(lo.Attributes) != uint32(num(sc, "attrs")) || int(lo.FilePathListLength) != num(sc, "fpll") {
 				fail("attributes/path-list length decoded as %d/%d", lo.Attributes, lo.FilePathListLength)
 			}
